@@ -318,7 +318,24 @@ def run(chk, facts):
             if not any(o["key"] == "R-C03-2|acyclic-guard:same-key-as-lookup" for o in chk.obligations):
               chk.ob("R-C03-2", "acyclic-guard:same-key-as-lookup", same_key, f"acyclicity validation: {key_why}" if same_key else
                      f"acyclicity validation: {key_why} - a cycle among such classes is not reported and the class lookup recurses until the stack overflows")
-            ok = prot and rv is not None and rv["class"] == "table-lookup"
+            # which edges does the recursion follow?  Bounded by the acyclicity validation only if it walks the *parents* of the classes it looks
+            # up: reviewed by name, or - for a recursion the table does not know (renamed, merged) - visible in the SCC itself: its members read a
+            # `parents` field and no field / function / argument collection of a class
+            reads = set()
+            for p in comp:
+                for bb in mir.fns[p].bbs:
+                    places = [o.place for s_ in bb.stmts for o in s_.ops if o.place] + [s_.dst for s_ in bb.stmts]
+                    if bb.term.k == "call":
+                        places += [o.place for o in bb.term.args if o.place]
+                    for pl in places:
+                        for pr in pl.proj:
+                            m_ = re.match(r"^\.\d+:(\w+):check::context::clss::(generic::GenericClass|Class)", pr) if isinstance(pr, str) else None
+                            if m_:
+                                reads.add(m_.group(1))
+            follows_parents = "parents" in reads and not (reads & {"fields", "functions", "args"})
+            ok = prot and ((rv is not None and rv["class"] == "table-lookup") or follows_parents)
+            if ok and rv is None:
+                rv = {"class": "table-lookup", "reason": "walks the `parents` of the classes it looks up (read from the SCC's own field accesses)"}
             chk.ob("R-C03-2", f"scc:{key}", ok,
                    f"recursion {names[:3]} follows names through the class table ({len(lookups)} lookups); "
                    + ("every construction of the table is validated to be acyclic first (Context::try_from must-calls check_inheritance_acyclic)" if prot else
@@ -653,6 +670,32 @@ def _callbacks(chk, facts):
     fns = {p: b for p, b in mir.fns.items() if p.startswith("parse::") and "lex::" not in p}
     consuming = set(fns) | base
     HIGHER = {LEX + "parse", LEX + "parse_vec", LEX + "peek_or_err"}   # call their function argument exactly once on Ok paths
+    # .. and so does a helper that hands its *own* function parameter on to one of them on every Ok path (`push_parsed(.., parse_fun, ..)`)
+    grew = True
+    while grew:
+        grew = False
+        for p_, b_ in fns.items():
+            if p_ in HIGHER:
+                continue
+            def from_param(l_, b_=b_, depth=0):
+                if 1 <= l_ <= b_.argc:
+                    return True
+                if depth > 3:
+                    return False
+                for _, s_ in b_.stmts():
+                    if s_.dst.local == l_ and not s_.dst.proj and s_.ops and s_.ops[0].place is not None:
+                        if from_param(s_.ops[0].place.local, b_, depth + 1):
+                            return True
+                return False
+
+            def hands_param_on(t_, b_=b_, from_param=from_param):
+                return t_.callee in HIGHER and any(a_.place is not None and not a_.place.proj and from_param(a_.place.local) and
+                                                   ("Fn" in b_.locals[a_.place.local] or "fn(" in b_.locals[a_.place.local]) for a_ in t_.args[1:])
+            if any(hands_param_on(t_) for _, t_ in b_.calls()):
+                holds_, _ = must_call_blocks(b_, 0, hands_param_on)
+                if holds_:
+                    HIGHER.add(p_)
+                    grew = True
 
     def callee_consumes(b, t):
         c = t.callee
